@@ -83,9 +83,10 @@ class BaseEnv:
 class SymEnv(BaseEnv):
     symbolic = True
 
-    def __init__(self, twin=False, ob_timeout_ms=20000, stop_on_cex=True):
+    def __init__(self, twin=False, ob_timeout_ms=20000, stop_on_cex=True, domain='a'):
         super().__init__()
         self.twin = twin
+        self.domain = domain
         self.R = loader.repo()
         self.np = shim.NP
         self.quaternion = shim.QUATMOD
@@ -259,6 +260,16 @@ class SymEnv(BaseEnv):
                 raise Counterexample(name)
             return False
         diffs = []
+        if S.ctx().domain == 'f':
+            # bit-for-bit: SMT-LIB `=` on the FloatingPoint sort (identity of bit patterns up to NaN payload)
+            for u, v in pairs:
+                a1, b1 = S.to_z3(u), S.to_z3(v)
+                if a1.eq(b1):
+                    continue
+                diffs.append(z3.Not(a1 == b1))
+            if not diffs:
+                return self._query(name, False)
+            return self._query(name, z3.Or(*diffs) if len(diffs) > 1 else diffs[0])
         for u, v in pairs:
             d = lift(u) - lift(v) if not isinstance(u, SymBool) else None
             if isinstance(d, K):
@@ -325,9 +336,11 @@ class ConcEnv(BaseEnv):
     """same interface on the real library with float inputs taken from `vals`"""
     symbolic = False
 
-    def __init__(self, vals, rtol=1e-7, atol=1e-9, default=None, seed=0):
+    def __init__(self, vals, rtol=1e-7, atol=1e-9, default=None, seed=0, exact=False):
         super().__init__()
         import quaternion
+        self.exact = exact
+        self.domain = 'f' if exact else 'a'
         self.vals = vals
         self.rtol, self.atol = rtol, atol
         self.R = loader.real()
@@ -444,6 +457,16 @@ class ConcEnv(BaseEnv):
             return False
         if fa.size == 0:
             self.log.append((name, 'ok', 'empty'))
+            return True
+        if self.exact:
+            ba, bb = fa.view(np.uint64), fb.view(np.uint64)
+            nan = np.isnan(fa) & np.isnan(fb)
+            bad = (ba != bb) & ~nan
+            if np.any(bad):
+                i = int(np.argmax(bad))
+                self._fail(name, 'bit patterns differ at flat index %d (a=%r, b=%r)' % (i, float(fa[i]), float(fb[i])))
+                return False
+            self.log.append((name, 'ok', 'bit-identical'))
             return True
         rtol = tol if tol is not None else self.rtol
         scale = max(1.0, float(np.max(np.abs(fa))) if np.all(np.isfinite(fa)) else 1.0,
